@@ -169,7 +169,7 @@ theorem BundlePropertyExperimenter_unmarshal_post (recv : V) (d : Slice) (hd : d
 
 /-- BundleAdd: the embedded message is parsed by `parseF`, the property loop advances by at least 8 bytes -/
 theorem BundleAdd_unmarshalWith_ns (parseF : Slice → R V) (childLen : MsgLenF)
-    (hparse : ∀ d : Slice, d.len ≤ 65535 → d.buf.length ≤ 65535 → NS (parseF d))
+    (hparse : ∀ d : Slice, d.WF → d.buf.length ≤ 65535 → NS (parseF d))
     (recv : V) (data : Slice) (hlen : data.len ≤ 65528) (hcap : data.buf.length ≤ 65535) :
     NS (BundleAdd.unmarshalWith parseF childLen recv data) := by
   unfold BundleAdd.unmarshalWith
@@ -182,10 +182,9 @@ theorem BundleAdd_unmarshalWith_ns (parseF : Slice → R V) (childLen : MsgLenF)
       simp only []
       split
       · exact post_err
-      · apply post_bind (P := fun d => d.len ≤ 65535 ∧ d.buf.length ≤ 65535) ?_ ?_
-        · refine ⟨(ns_sliceR _ _ _).1, fun d hd => ?_⟩
+      · apply post_bind (P := fun d => d.WF ∧ d.buf.length ≤ 65535) ?_ ?_
+        · refine ⟨(ns_sliceR _ _ _).1, fun d hd => ⟨(Slice.sliceR_wf _ _ _ _ hd).1, ?_⟩⟩
           have := sliceR_inv _ _ _ _ hd
-          have := ml.toNat_lt
           omega
         intro d _ hd
         apply post_bind_ns (hparse d hd.1 hd.2); intro m _
@@ -212,7 +211,7 @@ theorem BundleAdd_unmarshalWith_ns (parseF : Slice → R V) (childLen : MsgLenF)
   · exact post_panic
 
 theorem decodeVendorDataWith_ns (parseF : Slice → R V) (childLen : MsgLenF)
-    (hparse : ∀ d : Slice, d.len ≤ 65535 → d.buf.length ≤ 65535 → NS (parseF d))
+    (hparse : ∀ d : Slice, d.WF → d.buf.length ≤ 65535 → NS (parseF d))
     (ty : Nat) (data : Slice) (hlen : data.len ≤ 65528) (hcap : data.buf.length ≤ 65535) :
     NS (decodeVendorDataWith parseF childLen ty data) := by
   unfold decodeVendorDataWith
@@ -269,11 +268,11 @@ theorem PortStats_unmarshal_post (recv : V) (d : Slice) :
 
 /-- FlowStats, given that its instruction loop terminates -/
 theorem FlowStats_unmarshalP_post (recv : V) (d : Slice)
-    (hFS : ∀ limit n0 is0, NS (FlowStats.decodeInstrs d limit n0 is0)) :
+    (hFS : ∀ limit n0 is0, 48 ≤ n0 → NS (FlowStats.decodeInstrs d limit n0 is0)) :
     Post (FlowStats.unmarshalP recv d) (fun p => ∃ fs, p.1 = .obj "FlowStats" fs) := by
   unfold FlowStats.unmarshalP
   post_auto [Match_unmarshalP_ns, Match_lenM_ns, hFS]
-  exact post_ok ⟨_, rfl⟩
+  all_goals first | omega | exact post_ok ⟨_, rfl⟩
 
 theorem FlowStats_lenM_ns (v : V) : NS (FlowStats.lenM v) := by
   unfold FlowStats.lenM; post_auto [Match_lenM_ns, mapM2_ns, Instruction_lenM_ns]
@@ -291,7 +290,8 @@ theorem anyLenM_record_ns (r : V)
   · exact (ns_same _ _ : NS (TableStats.lenM _))
   · exact (ns_same _ _ : NS (QueueStats.lenM _))
 
-theorem decodeRecord_post (ty : Nat) (d : Slice) (hFS : ∀ limit n0 is0, NS (FlowStats.decodeInstrs d limit n0 is0)) :
+theorem decodeRecord_post (ty : Nat) (d : Slice)
+    (hFS : ∀ limit n0 is0, 48 ≤ n0 → NS (FlowStats.decodeInstrs d limit n0 is0)) :
     Post (MultipartReply.decodeRecord ty d) (fun p => NS (anyLenM p.1)) := by
   unfold MultipartReply.decodeRecord
   split
@@ -316,11 +316,13 @@ theorem decodeRecord_post (ty : Nat) (d : Slice) (hFS : ∀ limit n0 is0, NS (Fl
 
 /-- the hypothesis under which the record loop of a FlowStats reply is known to terminate (see C07) -/
 def FlowStatsInstrLoopOK : Prop :=
-  ∀ (d : Slice) (limit n0 : Nat) (is0 : List V), d.buf.length ≤ 65519 → NS (FlowStats.decodeInstrs d limit n0 is0)
+  ∀ (d : Slice) (limit n0 : Nat) (is0 : List V), d.WF → d.buf.length ≤ 65519 → 48 ≤ n0 →
+    NS (FlowStats.decodeInstrs d limit n0 is0)
 
 /-- MultipartReply (decoded into `new(MultipartReply)` as Parse does): the record loop refuses a record of length 0 and
     runs below the 16-bit header length -/
-theorem MultipartReply_unmarshalWith_ns (hFS : FlowStatsInstrLoopOK) (data : Slice) (hcap : data.buf.length ≤ 65535) :
+theorem MultipartReply_unmarshalWith_ns (hFS : FlowStatsInstrLoopOK) (data : Slice) (hwf : data.WF)
+    (hcap : data.buf.length ≤ 65535) :
     NS (MultipartReply.unmarshalWith anyLenM MultipartReply.zero data) := by
   simp only [MultipartReply.unmarshalWith, MultipartReply.zero]
   apply post_bind (msgTryU_post _ _ _ (fun h => Header.length h ≤ 65535) (Header_unmarshal_post _ _) (by decide))
@@ -333,12 +335,12 @@ theorem MultipartReply_unmarshalWith_ns (hFS : FlowStatsInstrLoopOK) (data : Sli
   · refine (msgLoopW_post _ _ _ (fun s => 16 ≤ s.n) (Header.length h) ?_ _ _ (Nat.le_refl 16) ?_).ns
     · intro s hI hc
       simp only [decide_eq_true_eq] at hc
-      apply post_bind (P := fun d => d.buf.length ≤ 65519) ?_ ?_
-      · refine ⟨(ns_fromR _ _).1, fun d hd => ?_⟩
+      apply post_bind (P := fun d => d.WF ∧ d.buf.length ≤ 65519) ?_ ?_
+      · refine ⟨(ns_fromR _ _).1, fun d hd => ⟨(Slice.fromR_wf data hwf _ _ hd).1, ?_⟩⟩
         have := fromR_cap _ _ _ hd
         omega
       intro d _ hd
-      apply post_bind (decodeRecord_post _ _ (fun l n i => hFS d l n i hd)); intro p _ hp
+      apply post_bind (decodeRecord_post _ _ (fun l n i hn => hFS d l n i hd.1 hd.2 hn)); intro p _ hp
       obtain ⟨r, e'⟩ := p
       simp only [] at hp ⊢
       apply post_bind_ns hp; intro q _
@@ -357,8 +359,9 @@ theorem MultipartReply_unmarshalWith_ns (hFS : FlowStatsInstrLoopOK) (data : Sli
 
 /-! ### Parse -/
 
-/-- the two properties of a frame the results below depend on: at most 65535 bytes long, in a buffer of at most 65535 -/
-def SmallFrame (b : Slice) : Prop := b.len ≤ 65535 ∧ b.buf.length ≤ 65535
+/-- the property of a frame the results below depend on: a well-formed slice (len ≤ cap) of a buffer of at most 65535
+    bytes -/
+def SmallFrame (b : Slice) : Prop := b.WF ∧ b.buf.length ≤ 65535
 
 theorem recoverR_ns (r : R V) (h : NS r) : NS (recoverR r) := by
   unfold recoverR
@@ -374,12 +377,13 @@ theorem post_ite {α} {c : Prop} [Decidable c] {x y : R α} {Q : α → Prop}
 
 /-- one level of Parse never spins when the nested Parse does not -/
 theorem parseStep_ns (hEth : ∀ recv d, NS (PEthernet.unmarshal recv d)) (hFS : FlowStatsInstrLoopOK)
-    (self : Slice → R V) (hself : ∀ d : Slice, d.len ≤ 65535 → d.buf.length ≤ 65535 → NS (self d))
+    (self : Slice → R V) (hself : ∀ d : Slice, d.WF → d.buf.length ≤ 65535 → NS (self d))
     (b : Slice) (hb : SmallFrame b) : NS (parseStep self b) := by
+  have hlen : b.len ≤ 65535 := by have := hb.1; unfold Slice.WF at this; have := hb.2; omega
   unfold parseStep
   apply post_bind_ns (ns_byteAt _ _); intro tb _
   extract_lets t
-  refine post_ite (fun _ => Hello_unmarshal_ns _ _ hb.1) (fun _ => ?_)
+  refine post_ite (fun _ => Hello_unmarshal_ns _ _ hlen) (fun _ => ?_)
   refine post_ite (fun _ => ?_) (fun _ => ?_)
   · apply post_bind_ns (ErrorMsg_unmarshal_ns _ _); intro e _
     exact post_ite (fun _ => VendorError_unmarshal_ns _ _) (fun _ => ns_pure _)
@@ -396,7 +400,7 @@ theorem parseStep_ns (hEth : ∀ recv d, NS (PEthernet.unmarshal recv d)) (hFS :
   refine post_ite (fun _ => FlowMod_unmarshal_ns _ _) (fun _ => ?_)
   refine post_ite (fun _ => ns_pure _) (fun _ => ?_)
   refine post_ite (fun _ => MultipartRequest_unmarshal_ns _ _) (fun _ => ?_)
-  exact post_ite (fun _ => MultipartReply_unmarshalWith_ns hFS _ hb.2) (fun _ => post_err)
+  exact post_ite (fun _ => MultipartReply_unmarshalWith_ns hFS _ hb.1 hb.2) (fun _ => post_err)
 
 theorem parseD_ns (hEth : ∀ recv d, NS (PEthernet.unmarshal recv d)) (hFS : FlowStatsInstrLoopOK) :
     ∀ depth (b : Slice), SmallFrame b → NS (parseD depth b) := by
